@@ -635,6 +635,15 @@ def gen_deep_history(hid, rng, prop, kind, scale=1.0, force=None):
     return h
 
 
+def gen_tall_history(hid, rng, prop, n):
+    """a very tall tree: capacity 4 or 5 (minimum fan-out 3) and about a hundred thousand keys inserted in order give
+    more than ten levels. Target "tall": the harness drives the implementation against std's BTreeMap by itself (no
+    model trace - the per-call machinery costs O(n) per call on both sides; the theorems cover every size)."""
+    h = Hist(hid, "tall", rng.choice([4, 4, 5]))
+    h.lines[0] += f" n={n} order={rng.choice(['asc', 'asc', 'desc'])}"
+    return h
+
+
 def gen_deep(prop, seed, tier):
     rng = random.Random(f"deep-{prop}-{seed}")
     caps = [64, 128, 80, 100, 63]
@@ -642,13 +651,16 @@ def gen_deep(prop, seed, tier):
         return [gen_deep_history("deep.s", rng, prop, "small"),
                 gen_deep_history("deep.l", rng, prop, "large",
                                  force=dict(cap=caps[seed % len(caps)], order="desc", pattern="top")),
-                gen_deep_history("deep.m", rng, prop, "large", scale=0.6)]
+                gen_deep_history("deep.m", rng, prop, "large", scale=0.6),
+                gen_tall_history("deep.t", rng, prop, 100000)]
     out = []
     for i in range(5):
         out.append(gen_deep_history(f"deep.s{i}", rng, prop, "small"))
         out.append(gen_deep_history(f"deep.l{i}", rng, prop, "large",
                                     force=dict(cap=caps[i], order="desc", pattern="top")))
         out.append(gen_deep_history(f"deep.m{i}", rng, prop, "large"))
+    out.append(gen_tall_history("deep.t0", rng, prop, 100000))
+    out.append(gen_tall_history("deep.t1", rng, prop, 250000))
     return out
 
 
